@@ -237,3 +237,50 @@ R.contract(
     replayable=False,
 )
 
+
+# ------------------------------------------------------------------------------------------------- stateful validate_response: a failure not reported before is recorded, counted once and fails the step
+SEX_ = "schemathesis.engine.phases.stateful._executor:"
+
+
+def _stateful_ctx_methods():
+    def seen(kind):
+        def f(it, obj, a, k):
+            known = it.ghost["seen_answers"]
+            key = (kind, id(a[0]))
+            if key not in known:
+                known = {**known, key: it.path.choose([(False, True), (True, True)], f"seen-in-{kind}")}
+                it.ghost["seen_answers"] = known
+            return known[key]
+
+        return f
+
+    def mark(it, obj, a, k):
+        it.ghost["marked"] = it.ghost["marked"] + [a[0]]
+
+    return {"is_seen_in_suite": seen("suite"), "is_seen_in_run": seen("run"), "mark_as_seen_in_suite": mark}
+
+
+R.nominal_methods["spec:StatefulCtx"] = _stateful_ctx_methods()
+R.nominal_methods["spec:CountingControl"] = {"count_failure": lambda it, obj, a, k: it.ghost.__setitem__("counted", it.ghost["counted"] + 1)}
+R.spec_funcs["was_seen"] = lambda it, f: any(v for (kind, fid), v in it.ghost["seen_answers"].items() if fid == id(f))
+NEWF = "[(n, f) for n, f in ghost('outcomes') if f is not None and not was_seen(f)]"
+R.contract(
+    SEX_ + "validate_response",
+    prop="C05",
+    args={"response": Opq("ResponseRef"), "case": Obj("spec:CheckedCase", id=Str), "stateful_ctx": Obj("spec:StatefulCtx"), "check_ctx": Opq("CheckContext"), "control": Obj("spec:CountingControl"),
+          "checks": Const([]), "recorder": Obj("spec:CheckRecorder"), "additional_checks": Const(())},
+    ghost={"outcomes": [], "collected": None, "located": [], "recorded_failures": [], "recorded_successes": [], "seen_answers": {}, "marked": [], "counted": 0},
+    raises=["FailureGroup"],
+    ensures={
+        "returns_only_if_no_new_failure": "length(" + NEWF + ") == 0",
+        "known_failures_are_not_reported_twice": "length(ghost('recorded_failures')) == 0 and ghost('counted') == 0",
+    },
+    raises_ensures={
+        # every failure that was not reported earlier in this suite / run: recorded with its check and code sample, counted ONCE towards the failure limit (C12), remembered, and raised
+        "every_new_failure_is_recorded_counted_once_and_remembered": "raised == 'FailureGroup' and length(" + NEWF + ") > 0 and length(ghost('recorded_failures')) == length(" + NEWF + ") and "
+            "ghost('counted') == length(" + NEWF + ") and all(any(r['name'] == n and r['failure'] is f for r in ghost('recorded_failures')) and any(m is f for m in ghost('marked')) and f in ghost('collected') for n, f in " + NEWF + ")",
+        "nothing_already_reported_is_recorded_again": "all(not was_seen(r['failure']) for r in ghost('recorded_failures'))",
+    },
+    replayable=False,
+)
+
